@@ -33,6 +33,8 @@ Definition tlam_parts (t : tree) : option (tree * tree) :=
   end.
 Definition is_subscript_before_event (ev : N) : bool :=
   N.eqb ev (ev_code E_before_subscript_load) || N.eqb ev (ev_code E_before_subscript_store) || N.eqb ev (ev_code E_before_subscript_del).
+Definition is_body_bracket_event (ev : N) : bool :=
+  N.eqb ev (ev_code E_before_function_body) || N.eqb ev (ev_code E_before_for_loop_body) || N.eqb ev (ev_code E_before_while_loop_body).
 Definition lambda_params (args : tree) : option (list N) :=
   match args with
   | T k [] [[]; ps; []; []; []; []; []] =>
@@ -114,8 +116,9 @@ Definition post (k : N) (sc : list scalar) (fs : list (list tree)) : option (lis
         | Some r =>
             match tlam_parts r with
             | Some _ => Some [self]                                         (* deferred: handled at the application node *)
-            | None => if is_subscript_before_event ev
-                      then Some [self]                                      (* saved-slice plumbing: handled at the Subscript *)
+            | None => if is_subscript_before_event ev || is_body_bracket_event ev
+                      then Some [self]                                      (* saved-slice plumbing: handled at the Subscript;
+                                                                               before-body events: handled at the guard test / Expr *)
                       else Some [r]                                         (* direct-value emit: its value *)
             end
         | None => Some [self]                                               (* statement-level emit: parents decide *)
@@ -195,7 +198,14 @@ Definition post (k : N) (sc : list scalar) (fs : list (list tree)) : option (lis
   else if N.eqb k kExpr then
     match fs with
     | [[v]] => match emit_parts v with
-               | Some (_, _, _, kws) => match kw_value id_ret kws with None => Some [] | Some _ => Some [self] end
+               | Some (ev, _, _, kws) =>
+                   match kw_value id_ret kws with
+                   | None => Some []
+                   | Some r =>
+                       (* before_function_body / before_*_loop_body as a statement (no guard test to carry it): ret=True *)
+                       if is_body_bracket_event ev && tree_eqb r (T kConstant [SBool true; SNone] [])
+                       then Some [] else Some [self]
+                   end
                | None => Some [self]
                end
     | _ => Some [self]
